@@ -30,6 +30,7 @@ struct SchedConfig {
   uint32_t disabled_kinds = 0;   // bitmask of YieldKind that do not yield this run
   std::vector<int> schedule;     // CH_EXPLICIT: task id per step (mod runnable set)
   int step_cap = 200000;
+  int exit_at_step = -1;         // >= 0: at that step the process "exits" - the library's static destructors run (on the main context) while the tasks carry on
   bool explicit_default_first = false;  // CH_EXPLICIT: after the list ends pick the lowest runnable id (for enumeration)
 };
 
@@ -46,6 +47,7 @@ struct SchedResult {
   int contended_locks = 0;       // times a task found the mutex held
   int cond_waits = 0, cond_timeouts = 0;  // condition-variable waits entered / timed waits that were let expire
   int switches = 0;              // steps where the chosen task differs from the previous one
+  int exit_handlers_run = 0;     // static destructors of the library that were run by the simulated exit
   int tls_blocks = 0;            // per-task instances of thread_local objects created (emulated TLS)
 };
 
@@ -70,6 +72,11 @@ struct LibraryScope { LibraryScope(); ~LibraryScope(); };
 // Suppress yields (e.g. while the harness itself calls into cctz from a task
 // for bookkeeping that must look atomic).
 struct NoYield { NoYield(); ~NoYield(); };
+
+// Static destructors that library code registered (function-local statics and namespace-scope objects with
+// non-trivial destructors, via __cxa_atexit) while it ran inside a task.  They are withheld from the C runtime
+// and run only by a simulated exit (SchedConfig::exit_at_step).
+int library_exit_handlers_registered();
 
 }  // namespace sim
 #endif
